@@ -264,7 +264,8 @@ func (d *zzDP) RemoveURR(seid uint64, req *ie.IE) ([]report.USAReport, error) {
 		return nil, err
 	}
 	if d.relaxed {
-		return d.reports(id, 1), nil
+		// 0..2 reports: the repository's own no-op driver answers a removal with no report at all
+		return d.reports(id, 0), nil
 	}
 	return []report.USAReport{d.report(id)}, nil
 }
